@@ -1,6 +1,6 @@
 SPECIFICATION Spec
 CONSTANTS
-  MaxH = 2
+  MaxH = 1
   MaxRestarts = 1
   FullNode = TRUE
   Cap = 2
